@@ -109,14 +109,13 @@ Definition process_plus (source:list word) : bool :=
 (* outcome of the two selection loops: the flags, or raise_not_a_possible_choice(value) at a word *)
 Inductive lres := LOk (fl:flags) | LBad (value:str) (line:nat).
 
-(* for value in word.value.split("+"): ... (membership is tested with the value as written:
-   design fact F9) *)
+(* for value in word.value.split("+"): ... (membership is tested with value.lower()) *)
 Fixpoint plus_values (vals:list str) (line:nat) (fl:flags) : lres :=
   match vals with
   | [] => LOk fl
   | v :: r =>
       if null v then plus_values r line fl
-      else if negb (fhas v fl) then LBad v line
+      else if negb (fhas (lowers v) fl) then LBad v line
       else plus_values r line (fset (lowers v) true fl)
   end.
 Fixpoint plus_loop (ws:list word) (fl:flags) : lres :=
@@ -129,16 +128,18 @@ Fixpoint plus_loop (ws:list word) (fl:flags) : lres :=
       end
   end.
 
-(* the else branch: starred / single bare word / several bare words *)
+(* the else branch: starred / single bare word / several bare words.
+   A name that is not a key never enters the dict: it raises when selected (unless
+   ignore_errors) and is skipped otherwise. *)
 Fixpoint normal_loop (single ignore_errors:bool) (ws:list word) (fl:flags) : lres :=
   match ws with
   | [] => LOk fl
   | w :: r =>
       let value := unstar (wv w) in
       let flag := if starts_star (wv w) then true else single in
-      if flag && negb (fhas (lowers value) fl) then
-        if ignore_errors then normal_loop single ignore_errors r fl
-        else LBad value (wline w)
+      if negb (fhas (lowers value) fl) then
+        if flag && negb ignore_errors then LBad value (wline w)
+        else normal_loop single ignore_errors r fl
       else normal_loop single ignore_errors r (fset (lowers value) flag fl)
   end.
 
